@@ -3,4 +3,4 @@ CONSTANTS
   MaxSeg = 1
   MaxDepth = 2
   Mut = "icase"
-INVARIANTS FirstMatch NoPrefix MatcherAgrees MapThenRoute
+INVARIANTS FirstMatch NoPrefix MatcherAgrees MapThenRoute PoolWhole
